@@ -127,12 +127,18 @@ func c13Target(name string) s2.VerifDistanceTarget {
 // the Loop object of a history
 var c13LoopCentre = [2]float64{20, -60}
 
+// loopVerts >= 1000 selects the POLAR variant with loopVerts-1000 vertices: a loop around the north pole,
+// so that its bound touches a pole (Invert then has to recompute the bound through ContainsPoint(pole)).
 func c13NewLoop(n int) *s2.Loop {
+	if n >= 1000 {
+		return s2.RegularLoop(c13LL(80, 30), 15*s1.Degree, n-1000)
+	}
 	return s2.RegularLoop(c13LL(c13LoopCentre[0], c13LoopCentre[1]), 5*s1.Degree, n)
 }
 
 var c13LoopPoints = [][2]float64{
 	{20, -60}, {22, -60}, {20, -56}, {24.9, -60}, {25.2, -60}, {20, -50}, {-20, 120}, {-80, 10},
+	{90, 0}, {-90, 0}, {85, 100}, {60, 30}, {66, 30}, {-89.9, 77},
 }
 
 func c13LoopCells() []s2.Cell {
@@ -1019,6 +1025,9 @@ func genC13(g *G) {
 	c.run(8, "normal", 8, []string{L0, "build", "reset", L0, "query"})
 	c.run(64, "normal", 8, []string{"lcell", "inv", "lcell"})
 	c.run(64, "normal", 8, []string{"lcontains", "inv", "lcontains"})
+	c.run(1064, "normal", 8, []string{"lcontains", "inv", "lcontains", "lcell", "lcontains"})
+	c.run(1064, "normal", 8, []string{"lcell", "inv", "lcontains", "inv", "lcontains"})
+	c.run(1008, "normal", 8, []string{"lcontains", "inv", "lcontains"})
 	c.run(8, "normal", 8, []string{L0, def, c13CallOp("dist", "tp0", 0), c13CallOp("fes", "tp0", 0)})
 	c.run(8, "normal", 8, []string{L0, def, c13CallOp("less", "tp0", 10), c13CallOp("dist", "tp0", 0)})
 	c.run(8, "full", 8, []string{"pcontains"})
@@ -1035,7 +1044,7 @@ func genC13(g *G) {
 		depthIdx = 5
 	}
 	c.dfs(8, "normal", 8, nil, []string{L0, E, "build", "reset", "query"}, depthIdx)
-	for _, lv := range []int{64, 8} {
+	for _, lv := range []int{64, 8, 1064} {
 		c.dfs(lv, "normal", 8, nil, []string{"inv", "lcontains", "lcell"}, 4)
 	}
 	c.dfs(8, "empty", 8, nil, []string{"pinv", "pcontains"}, 4)
